@@ -390,7 +390,41 @@ pub fn run(ctx: &'static Ctx, p: P) {
                 .sum()
         };
         lane_prefixes += sweep_prefixes;
-        per_table.push(json!({"table": t.name(), "sweep_programs": sweeps.len(), "sweep_prefixes_judged": sweep_prefixes, "dfs": info, "lanes": lanes.len(), "lane_len": n, "lane_prefixes_judged": lane_prefixes, "long_lanes": long_info}));
+        // byte-sum sweep: per kind, one byte-wide (or wider) argument taken through all 256 values of its low byte, so that
+        // the entry's own byte sum — and with it the table's running sum — takes every residue (an update rule that
+        // special-cases a sum of 0, a carry, or a sign bit is exercised at every value)
+        let mut sum_programs = 0u64;
+        {
+            use rayon::prelude::*;
+            let mut progs: Vec<(String, Vec<Op>)> = vec![];
+            for k in 0..t.kinds().len() as u8 {
+                let shape = t.shapes(k)[0];
+                let fields = t.fields(k, shape);
+                let idx = match fields.iter().position(|ft| matches!(ft, crate::tables::FT::U(b) if *b >= 8)) {
+                    Some(i) => i as u8,
+                    None => continue,
+                };
+                let pre = t.prelude(k, shape);
+                for v in 0..=255u64 {
+                    let mut ops = pre.clone();
+                    let base = crate::fill::Fill::b(2);
+                    let cur = base.raw(idx, 64);
+                    ops.push(Op { k, shape, fill: base.with(idx, (cur & !0xff) | v) });
+                    ops.push(Op { k, shape, fill: crate::fill::Fill::b(1) });
+                    progs.push((format!("{}[arg {} low byte {:#04x}]", t.kinds()[k as usize], idx, v), ops));
+                }
+            }
+            sum_programs = progs.len() as u64;
+            let j: u64 = progs
+                .par_iter()
+                .map(|(name, ops)| {
+                    let l = seq::Lane { name: format!("bytesum:{}", name), ops: ops.clone() };
+                    seq::run_lane(ctx, t, &c0, &l, &|_k| (true, false), &|v| judge(ctx, p, v))
+                })
+                .sum();
+            lane_prefixes += j;
+        }
+        per_table.push(json!({"table": t.name(), "byte_sum_programs": sum_programs, "sweep_programs": sweeps.len(), "sweep_prefixes_judged": sweep_prefixes, "dfs": info, "lanes": lanes.len(), "lane_len": n, "lane_prefixes_judged": lane_prefixes, "long_lanes": long_info}));
     }
     ctx.engine("E2.sequences", json!({"level": level, "node_budget_per_table": budget, "tables": per_table}));
     ctx.set("bound", json!(format!("all operation sequences up to the per-table depth listed under engines (budget {} nodes), all lanes a^N and (ab)^(N/2)", budget)));
